@@ -166,8 +166,14 @@ def run(ctx, chk):
                 w = st.frames[0]["w"]
                 want = 1 if kind == "set" else 0
                 good = all((b == want) if i == bit else (b == ("c", "w", i)) for i, b in enumerate(w.bits))
+            if kind == "get":
+                exact = ret is not None and ret.kind == "int" and (ret.bits[0] in (0, 1) or ret.bits[0][0] in "cn")
+            else:
+                exact = w.kind == "int" and all(b in (0, 1) or b[0] in "cn" for b in w.bits)
             if good:
                 chk.ok("C06.R2", f"{fname}({var['name']})", f"bit {bit} only")
+            elif not exact:
+                chk.undecided_("C06.R2", f"{fname}({var['name']})", "the accessed bit is computed in a way the bit domain does not follow")
             else:
                 chk.violation("C06.R2", fname, f"{var['name']}-wrong-bit", f"{fname}(.., Flags::{var['name']}) does not act on exactly bit {bit}", fn["span"])
 
